@@ -159,8 +159,23 @@ def c17_item(res, item):
         c17_points(res, [(item["x"], item["t"])])
 
 
+def c17_oracle_selfcheck(res, rng):
+    """the two independent Lean evaluators of Phi (own Float erfc: series/continued fraction; big-float: integer series)
+    must agree to 1e-12 relative over the whole range: a defect in either oracle would show here"""
+    xs = [rng.uniform(-38.4, 8.0) for _ in range(size(res, 300, 600))]
+    drv = Driver()
+    a = drv.run(["LEAF Phi %s %s" % (f2h(x), f2h(0.0)) for x in xs])
+    b = drv.run(["HPHI %s" % f2h(x) for x in xs])
+    for x, u, v in zip(xs, a, b):
+        u, v = h2f(u.split(" ")[1]), h2f(v.split(" ")[1])
+        res.count("oracle_selfcheck_points")
+        if not abs(u - v) <= 1e-12 * max(v, TINY):
+            res.fail("correspondence", "C17: the model's two evaluators of Phi disagree at %r: Float %r, big-float %r" % (x, u, v), dict(type="cdf", x=x))
+
+
 def c17(res):
     rng = random.Random(res.seed)
+    c17_oracle_selfcheck(res, rng)
     pts = sweep_points(res, rng)
     for p in pts[:: max(1, len(pts) // 2000)]:
         res.case(dict(x=p[0], t=p[1]))
